@@ -151,7 +151,7 @@ class SimUDSScanner(_Mixin, UDSScanner):
 
 EXIT_KINDS = ["return", "exit0", "exit1", "exit3", "exittext", "conn", "uds", "runtime", "kbd"]
 POINTS = [("setup", "pre"), ("setup", "post"), ("main", "pre"), ("teardown", "pre"), ("teardown", "post")]
-HOOKS = ["absent", "ok", "fail", "stderr", "slow"]
+HOOKS = ["absent", "ok", "fail", "stderr", "slow", "signal"]
 
 
 def expected_codes(kind: str, cmdkind: str) -> set[int]:
@@ -238,6 +238,7 @@ class C15(Check):
         plan["db_lat"] = rng.choice([0.0001, 0.001, 0.01])
         plan["trace_log"] = rng.random() < 0.3
         plan["db_locked"] = rng.random() < 0.25  # one transient 'database is locked' on a row insert (another process reads the database)
+        plan["db_close_error"] = rng.random() < 0.15
         plan["odd_text"] = rng.random() < 0.3  # a marker message that is not valid UTF-8 (file name decoded with surrogateescape)
         plan["net_seed"] = rng.getrandbits(30)
         return plan
@@ -246,7 +247,7 @@ class C15(Check):
         import copy
 
         for key, val in (("lock", False), ("db", False), ("hooks", False), ("pre_hook", "absent"), ("post_hook", "absent"),
-                         ("sigint", None), ("sigint_frac", None), ("db_locked", False), ("odd_text", False), ("pump", "eager"), ("artifacts", False), ("trace_log", False)):
+                         ("sigint", None), ("sigint_frac", None), ("db_locked", False), ("db_close_error", False), ("odd_text", False), ("pump", "eager"), ("artifacts", False), ("trace_log", False)):
             if plan.get(key) != val:
                 p = copy.deepcopy(plan)
                 p[key] = val
@@ -292,6 +293,7 @@ class C15(Check):
 
     def _run(self, plan: dict[str, Any], world: CmdWorld, res: dict[str, Any]) -> None:
         tmp = Path(world.tmp)
+        cmd_holder: dict[str, Any] = {}
         world.net.policy_factory = lambda i, d: Policy(seed=plan["net_seed"] + i * 2 + (d == "s2c"), segment="random")
         world.sql.latency = lambda c, n: plan["db_lat"]
         if plan.get("db_locked"):
@@ -305,6 +307,25 @@ class C15(Check):
                 return None
 
             world.sql.fault = db_fault
+        if plan.get("db_close_error"):
+            # the final commit of the database close fails with an error that is NOT "database is locked"
+            close_state: dict[str, Any] = {"fired": False}
+            prev_fault = world.sql.fault
+
+            def close_fault(conn: Any, sql: str) -> Exception | None:
+                if prev_fault is not None:
+                    e_ = prev_fault(conn, sql)
+                    if e_ is not None:
+                        return e_
+                h_ = getattr(cmd_holder.get("cmd"), "db_handler", None)
+                # the commit disconnect() issues after the writer task is gone (its rows are all written by then)
+                if sql == "COMMIT" and not close_state["fired"] and h_ is not None and h_.meta is not None and h_._executor_task is None and h_._execute_queue is None:
+                    close_state["fired"] = True
+                    bump(res["faults"], "database_error_at_the_final_commit")
+                    return sqlite3.DatabaseError("database disk image is malformed")
+                return None
+
+            world.sql.fault = close_fault
         world.install()
         kw: dict[str, Any] = {"trace_log": plan["trace_log"], "hooks": plan["hooks"]}
         if plan["artifacts"]:
@@ -324,6 +345,8 @@ class C15(Check):
                 script += "; echo oops >&2; echo out"
             if mode == "slow":
                 script += "; : SLOWHOOK"
+            if mode == "signal":
+                script += "; kill -TERM $$"  # the hook's shell dies by a signal (negative return code)
             return script
 
         kw["pre_hook"] = hook("pre", plan["pre_hook"])
@@ -340,6 +363,7 @@ class C15(Check):
             cmd = SimUDSScanner(cfg)
         beh = Behaviour(plan, world)
         cmd.behaviour = beh
+        cmd_holder["cmd"] = cmd
         fired: list[float] = []
         if plan["pump"] == "eager":
             world.start_pump(0.0005, None)
@@ -391,7 +415,7 @@ class C15(Check):
         if exit_done:
             bump(res["faults"], "exit_" + ex["kind"])
         for w in ("pre", "post"):
-            if plan["hooks"] and plan[f"{w}_hook"] in ("fail", "stderr"):
+            if plan["hooks"] and plan[f"{w}_hook"] in ("fail", "stderr", "signal"):
                 bump(res["faults"], f"{w}_hook_{plan[f'{w}_hook']}")
         res["shape"] = (
             f"{kind}|{ex['kind'] if exit_done else 'return'}@{ex['point']}-{ex['pos'] if exit_done else ''}|sig:{where}|"
@@ -464,8 +488,9 @@ class C15(Check):
                     for line in raw.splitlines():
                         r = PenlogRecord.parse_json(line)
                         datas.append(r.data)
-                    if plan["hooks"] and plan["pre_hook"] == "fail" and not any("pre-hook failed" in d for d in datas):
-                        violation(res, "C15/hook", "C15/hook-failure-not-reported:pre", "the pre-hook exited 3 but the log holds no record reporting it")
+                    if plan["hooks"] and plan["pre_hook"] in ("fail", "signal") and not any("pre-hook failed" in d for d in datas):
+                        violation(res, "C15/hook", f"C15/hook-failure-not-reported:pre:{plan['pre_hook']}",
+                                  f"the pre-hook {'exited 3' if plan['pre_hook'] == 'fail' else 'was killed by a signal'} but the log holds no record reporting it")
                     it = iter(datas)
                     missing = [m for m in beh.markers if not any(d == m for d in it)]
                     if missing:
